@@ -384,8 +384,15 @@ class Explorer(object):
         elif isinstance(target, ast.Subscript):
             base = self.expr(target.value, env)
             idx = self.expr(target.slice, env)
-            if isinstance(base, list) and isinstance(idx, int):
-                base[idx] = v
+            if isinstance(base, list) and isinstance(idx, int) and not isinstance(idx, bool):
+                if -len(base) <= idx < len(base):
+                    base[idx] = v
+                elif getattr(self.port, 'name', 'py') == 'js' and idx >= 0:
+                    while len(base) < idx:
+                        list.append(base, None)          # a JS array grows (with holes) when a position beyond its end is assigned
+                    list.append(base, v)
+                else:
+                    raise Raised(Abs('IndexError'), target)
             elif isinstance(base, dict):
                 base[idx] = v
             else:
@@ -548,6 +555,15 @@ class Explorer(object):
                     if all(self.truth(self.expr(c, env2), c) for c in g.ifs):
                         yield self.expr(e.elt, env2)
             return LazyGen(gen())
+        if isinstance(e, ast.DictComp) and len(e.generators) == 1:
+            g = e.generators[0]
+            outd = {}
+            env2 = dict(env)
+            for v in self.iterate(self.expr(g.iter, env), e):
+                self.assign(g.target, v, env2)
+                if all(self.truth(self.expr(c, env2), c) for c in g.ifs):
+                    outd[self.expr(e.key, env2)] = self.expr(e.value, env2)
+            return outd
         if isinstance(e, ast.ListComp) and len(e.generators) == 1:
             g = e.generators[0]
             out = []
@@ -594,7 +610,7 @@ class Explorer(object):
             return ('method', obj, name)
         if isinstance(obj, (_re.Pattern, _re.Match)):
             return ('method', obj, name)
-        if isinstance(obj, float):
+        if isinstance(obj, (float, bytes)):
             return ('method', obj, name)
         if name == 'size' and isinstance(obj, dict) and 'size' not in obj:
             return len(obj)
@@ -1229,6 +1245,29 @@ class Explorer(object):
                 return recv.rfind(args[0])
             if m in ('padStart', 'padEnd') and len(args) == 2 and isinstance(args[0], int) and isinstance(args[1], str) and len(args[1]) == 1:
                 return recv.rjust(args[0], args[1]) if m == 'padStart' else recv.ljust(args[0], args[1])
+        if isinstance(recv, str) and getattr(self.port, 'name', 'py') == 'js' and m in ('indexOf', 'includes', 'startsWith', 'endsWith', 'lastIndexOf') and args and isinstance(args[0], list) \
+                and all(x is None or (isinstance(x, (str, int)) and not isinstance(x, bool)) for x in args[0]):
+            args = [','.join('' if x is None else str(x) for x in args[0])] + list(args[1:])      # an array argument is converted to its comma-joined text
+        if isinstance(recv, str) and getattr(self.port, 'name', 'py') == 'py' and m == 'encode' and all(isinstance(a_, str) for a_ in args) and len(args) <= 2:
+            try:
+                return recv.encode(*args)
+            except (UnicodeError, LookupError):
+                raise Raised(Abs('UnicodeEncodeError'), node)
+        if isinstance(recv, bytes) and m == 'decode' and all(isinstance(a_, str) for a_ in args) and len(args) <= 2:
+            try:
+                return recv.decode(*args)
+            except (UnicodeError, LookupError):
+                raise Raised(Abs('UnicodeDecodeError'), node)
+        if isinstance(recv, str) and getattr(self.port, 'name', 'py') == 'js' and m == 'split' and len(args) == 1 and isinstance(args[0], tuple) and len(args[0]) == 3 and args[0][0] == 'regex':
+            import re as _re2
+            from . import regexlang as _R
+            try:
+                rx_ = _re2.compile(_R.js_to_py(args[0][1]), _re2.I if 'i' in args[0][2] else 0)
+            except Exception:
+                raise Undecided('regex split outside the abstract interpreter', node)
+            if rx_.groups:
+                raise Undecided('split by a regex with groups', node)
+            return rx_.split(recv)
         if isinstance(recv, str):
             if m == 'join' and len(args) == 1 and isinstance(args[0], (list, tuple)):
                 if all(isinstance(x, str) for x in args[0]):
@@ -1238,6 +1277,18 @@ class Explorer(object):
                 return getattr(recv, m.lower())(args[0])
             if m == 'count' and len(args) == 1 and isinstance(args[0], str):
                 return recv.count(args[0])
+            if m in ('indexOf', 'find') and 1 <= len(args) <= 2 and isinstance(args[0], str) and all(isinstance(a_, int) for a_ in args[1:]):
+                return recv.find(*args)
+            if m == 'includes' and len(args) == 1 and isinstance(args[0], str):
+                return args[0] in recv
+            if m == 'search' and len(args) == 1 and isinstance(args[0], tuple) and len(args[0]) == 3 and args[0][0] == 'regex':
+                import re as _re
+                from . import regexlang as _R
+                try:
+                    mo_ = _re.search(_R.js_to_py(args[0][1]), recv, _re.I if 'i' in args[0][2] else 0)
+                except Exception:
+                    raise Undecided('regex search outside the abstract interpreter', node)
+                return mo_.start() if mo_ is not None else -1
             if m == 'replace' and len(args) == 2 and isinstance(args[0], tuple) and args[0] and args[0][0] == 'regex' and isinstance(args[1], str) and '$' not in args[1]:
                 # a regex constant applied to a concrete string: evaluated with the translated pattern
                 import re as _re
